@@ -42,10 +42,10 @@ K_SQUARE = "structured-mesh:equal-length-axes:read-as-1d"
 C08_INVS = ["WellFormed", "HalfOpen", "DirWithinIso", "EarlyExitSound", "EarlyFirstSame"]
 C09_INVS = {
     "iso": ["PermInvariant", "TranslationInvariant", "OrthoInvariant", "ShiftInvariant", "ScaleCovariant",
-            "MissingIsRemoved", "PerFieldSkipping"],
+            "MissingIsRemoved", "RepresentationIrrelevant", "PerFieldSkipping"],
     "dir": ["PermInvariant", "TranslationInvariant", "OrthoInvariant", "DirLengthInvariant", "ShiftInvariant",
-            "ScaleCovariant", "MissingIsRemoved"],
-    "gc": ["PermInvariant", "OrthoInvariant", "ShiftInvariant", "ScaleCovariant", "MissingIsRemoved"],
+            "ScaleCovariant", "MissingIsRemoved", "RepresentationIrrelevant"],
+    "gc": ["PermInvariant", "OrthoInvariant", "ShiftInvariant", "ScaleCovariant", "MissingIsRemoved", "RepresentationIrrelevant"],
     "axis": ["AxisIsDirectional", "AxisReversal", "AxisMaskIsMissing"],
     "sub": ["SubsampleAll", "PermInvariant", "PerFieldSkipping", "MissingIsRemoved"],
 }
@@ -311,7 +311,7 @@ class _FrozenRec(dict):
         return hash(tuple(sorted((k, repr(v)) for k, v in self.items())))
 
 
-def mc_text(job, invs):
+def mc_text(job, invs, again=False):
     cs = job["consts"]
     lines = ["---- MODULE %s ----" % job["name"], "EXTENDS Vario"]
     cfg = ["CONSTANTS"]
@@ -319,7 +319,11 @@ def mc_text(job, invs):
         lines.append("Mc%s == %s" % (k, tlaval.to_tla(v)))
         cfg.append(" %s <- Mc%s" % (k, k))
     lines.append("====")
-    cfg += ["INIT Init", "NEXT Next"] + ["INVARIANT %s" % i for i in invs]
+    if again:  # C09: a second estimation with the same arguments must reproduce the result
+        cfg += ["INIT Init", "NEXT Again", "PROPERTY Functional"]
+    else:
+        cfg += ["INIT Init", "NEXT Next"]
+    cfg += ["INVARIANT %s" % i for i in invs]
     return "\n".join(lines) + "\n", "\n".join(cfg) + "\n"
 
 
@@ -508,12 +512,17 @@ class WrongCenters(ValueError):
     pass
 
 
-def call_api(gs, pos, fld, edges, est, **kw):
+def call_api(gs, pos, fld, edges, est, ref_edges=None, **kw):
     """vario_estimate with return_counts; returns (centers, values[dir][bin], counts[dir][bin]).
-    The bin centres must be the mid points of the edges as given (in the caller's unit)."""
+    The bin centres must be the mid points of the edges as given (in the caller's unit).
+    With ``ref_edges`` (a pristine copy of the edge values) the object ``edges`` itself is handed to
+    the real code, so that a caller can pass the same float64 array to several calls."""
     if edges is None:  # standard bins from (bin_no, max_dist): equidistant from 0
         edges = np.linspace(0.0, kw["max_dist"], kw["bin_no"] + 1)
         r = gs.vario_estimate(pos, fld, None, estimator=est_name(est), return_counts=True, **kw)
+    elif ref_edges is not None:
+        r = gs.vario_estimate(pos, fld, edges, estimator=est_name(est), return_counts=True, **kw)
+        edges = ref_edges
     else:
         edges = np.array(edges, dtype=float)
         r = gs.vario_estimate(pos, fld, edges.copy(), estimator=est_name(est), return_counts=True, **kw)
@@ -777,7 +786,14 @@ ANGLES3 = {(1, 0, 0): (0.0, math.pi / 2), (0, 1, 0): (math.pi / 2, math.pi / 2),
 
 
 def _check_rel(ctx, st, mode, rel, exp, call, est, kw_desc, tol=1e-12, scale=1, used=None):
-    """Run one related call and compare with the (transformed) TLC value."""
+    """Run one related call and compare with the (transformed) TLC value.  The call is made twice with
+    the very same argument objects (bin edges, positions, field, mask): the second result has to be the
+    TLC value as well (spec: Again / Functional)."""
+    _check_rel_once(ctx, st, mode, rel, exp, call, est, kw_desc, tol, scale, used)
+    _check_rel_once(ctx, st, mode, rel + ":second-call-same-objects", exp, call, est, kw_desc, tol, scale, used)
+
+
+def _check_rel_once(ctx, st, mode, rel, exp, call, est, kw_desc, tol=1e-12, scale=1, used=None):
     ctx.rel(rel)
     try:
         _cen, v, c = call()
@@ -809,6 +825,43 @@ def _check_rel(ctx, st, mode, rel, exp, call, est, kw_desc, tol=1e-12, scale=1, 
               % (rel, mode, est_name(est), bad[1] + 1, bad[2], bad[0], kw_desc), mode, st, kw_desc, _obs(v, c))
 
 
+GARB, NODATA = 55.0, 77.0
+REPR_KINDS = ("entry-mask", "empty-point-mask", "point-mask", "no-data", "mixed")
+
+
+def render(fa, kind, as_list=False):
+    """Float image of Render(flds, kind) of the spec: (field object, keyword arguments).
+    Finite, distinctive raw data is stored under every mask."""
+    nanm = np.isnan(fa)
+    nf, n = fa.shape
+    allna = nanm.all(axis=0)
+    garb = np.where(nanm, GARB + np.arange(1, nf + 1)[:, None], fa)
+
+    def ma(vals, m):
+        if nf == 1:
+            return np.ma.array(vals[0].copy(), mask=m[0].copy())
+        if as_list:
+            return [np.ma.array(vals[i].copy(), mask=m[i].copy()) for i in range(nf)]
+        return np.ma.array(vals.copy(), mask=m.copy())
+
+    if kind == "entry-mask":
+        return ma(garb, nanm), {}
+    if kind == "empty-point-mask":
+        return ma(garb, nanm), {"mask": np.zeros(n, dtype=bool)}
+    if kind == "point-mask":
+        return ma(garb, nanm & ~allna[None, :]), {"mask": allna.copy()}
+    if kind == "no-data":
+        v = np.where(nanm, NODATA, fa)
+        return (v if nf > 1 else v[0]), {"no_data": NODATA}
+    if kind == "mixed":
+        v = np.where(nanm, NODATA, fa)
+        v[0, nanm[0]] = GARB
+        m = np.zeros_like(nanm)
+        m[0] = nanm[0]
+        return ma(v, m), {"mask": allna.copy(), "no_data": NODATA}
+    raise AssertionError(kind)
+
+
 def missing_forms(ctx, fa, pa):
     """The same data with the missing values expressed in the different accepted ways.
     Returns list of (label, pos, field, kwargs)."""
@@ -816,14 +869,12 @@ def missing_forms(ctx, fa, pa):
     nanm = np.isnan(fa)
     allmiss = nanm.all(axis=0)
     sent = 7.0
-    f1 = fa.copy()
-    f1[nanm] = sent
-    out.append(("no_data", pa, f1 if fa.shape[0] > 1 else f1[0], {"no_data": sent}))
-    f2 = fa.copy()
-    f2[nanm] = 55.0  # value under the mask is irrelevant
-    out.append(("masked-array", pa, np.ma.array(f2, mask=nanm.copy()) if fa.shape[0] > 1 else np.ma.array(f2[0], mask=nanm[0].copy()), {}))
-    if fa.shape[0] > 1:
-        out.append(("list-of-masked-arrays", pa, [np.ma.array(f2[m].copy(), mask=nanm[m].copy()) for m in range(fa.shape[0])], {}))
+    for kind in REPR_KINDS:
+        f_, kw = render(fa, kind)
+        out.append((kind, pa, f_, kw))
+        if fa.shape[0] > 1 and kind != "no-data":
+            f_, kw = render(fa, kind, as_list=True)
+            out.append((kind + ":list-of-masked-arrays", pa, f_, kw))
     if allmiss.any() and not allmiss.all():
         f3 = fa.copy()
         f3[:, allmiss] = 3.0  # points without data carry a value but are deselected by mask=
@@ -859,11 +910,12 @@ def replay_points_c09(ctx, gs, K, st, mode):
     def run(rel, pos, fld, kw=None, e=est, expd=None, edges=None, tol=1e-12, std=False, scale=1, idx=None):
         k = dict(base_kw)
         k.update(kw or {})
-        eg = None if std else (ed if edges is None else edges).copy()
+        eg = None if std else np.array(ed if edges is None else edges, dtype=np.float64)  # the object the real code gets
+        eg0 = None if std else eg.copy()  # pristine values for the expectation
         desc = "vario_estimate(pos=%s, field=%s, bin_edges=%s, estimator=%r, %s)" % (
             np.asarray(pos).tolist() if not isinstance(pos, tuple) else [p.tolist() for p in pos],
             _show(fld), None if eg is None else eg.tolist(), est_name(e), ", ".join("%s=%s" % (a, _show(b)) for a, b in k.items()))
-        _check_rel(ctx, st, mode, rel, exp if expd is None else expd, lambda: call_api(gs, pos, fld, eg, e, **k), e, desc, tol, scale,
+        _check_rel(ctx, st, mode, rel, exp if expd is None else expd, lambda: call_api(gs, pos, fld, eg, e, ref_edges=eg0, **k), e, desc, tol, scale,
                    (np.atleast_2d(np.asarray(pos, dtype=float)), list(range(n)) if idx is None else idx) if mode == "gc" else None)
 
     fld0 = fa if nf > 1 else fa[0]
@@ -1221,7 +1273,7 @@ def _work(arg):
     from gstools.variogram import estimator as K
 
     invs = list(C08_INVS) if pid == "C08" else ["WellFormed"] + C09_INVS[job["mode"]]
-    mod, cfg = mc_text(job, invs)
+    mod, cfg = mc_text(job, invs, again=(pid == "C09"))
     ctx = Ctx(pid, tier, seed, job["name"])
     res = {"name": job["name"], "mode": job["mode"]}
     with tlc.Scratch() as sc:
